@@ -151,7 +151,8 @@ def generic_signature(case):
     op = v.get('op') or {}
     site = v.get('site') or {}
     sig = {'kind': v.get('kind'), 'op': op.get('k'), 'field': op.get('field'), 'target': site.get('target'),
-           'parent': site.get('parent'), 'pfield': site.get('pfield'), 'code': site.get('code')}
+           'parent': site.get('parent'), 'pfield': site.get('pfield'), 'code': site.get('code'),
+           'form': (op.get('code') or {}).get('form')}
     for p in v.get('predicates') or ():
         sig['P:' + p] = True
     for p in site.get('flags') or ():
